@@ -254,7 +254,15 @@ func (c *FCGIClient) writePairs(recType uint8, pairs map[string]string) error {
 	b := make([]byte, 8)
 	nn := 0
 	for k, v := range pairs {
-		m := 8 + len(k) + len(v)
+		// the size of the encoded pair: each length takes one byte up to
+		// 127 and four bytes above (see encodeSize)
+		sizeLen := func(n int) int {
+			if n > 127 {
+				return 4
+			}
+			return 1
+		}
+		m := sizeLen(len(k)) + sizeLen(len(v)) + len(k) + len(v)
 		if m > maxWrite {
 			// param data size exceed 65535 bytes"
 			vl := maxWrite - 8 - len(k)
